@@ -106,6 +106,16 @@ fn main() {
                     stepping.store(true, Ordering::SeqCst);
                 }
                 5 => _ = credits.fetch_add(1, Ordering::SeqCst),
+                6 => {
+                    // close stdout, stay alive, read nothing more from stdin
+                    credits.store(0, Ordering::SeqCst);
+                    stepping.store(true, Ordering::SeqCst);
+                    // SAFETY: closing our own stdout
+                    unsafe {
+                        _ = libc::close(fd);
+                    }
+                    closed = true;
+                }
                 _ => std::process::exit(1),
             }
             continue;
